@@ -368,6 +368,6 @@ MUTANTS += [
     M("c16-r5-holder-length-guard", "C16", "C16.R5", CHOLD, "\tif len(value.Content) < 2 {\n\t\treturn util.NewYamlError(value, \".type is undefined\")\n\t}\n", "\tif len(value.Content) < 1 {\n\t\treturn util.NewYamlError(value, \".type is undefined\")\n\t}\n", "a transform written as a YAML sequence with one element / a mapping key without value"),
     M("c16-r5-wildcard-length-check", "C16", "C16.R5", SEX, "\tcase len(targetWildcard) < 2 || targetWildcard[0] != '[' || targetWildcard[len(targetWildcard)-1] != ']':", "\tcase targetWildcard[0] != '[' || targetWildcard[len(targetWildcard)-1] != ']':", "newStringExtractor with a one-byte wildcard part '[': expression[1:0]"),
     M("c16-r5-split-pattern-bend", "C16", "C16.R5", SEX, "\t\tbend += bstart + 1\n", "\t\tbend += bstart + 2\n", "a pattern ending in its closing bracket, e.g. 'a[bc]': pattern[bend+1:] beyond the end"),
-    M("c07-r1-template-slice-bounds", "C07", "C07.R1", STPLF, "\t\tif start >= len(v) {\n\t\t\treturn \"\"\n\t\t}\n", "", "run-time template ${x[5:]} on a 3-byte value (the solver closure runs per record)"),
+    B("c07-r1-benign-template-start-check", "C07", STPLF, "\t\tif start >= len(v) {\n\t\t\treturn \"\"\n\t\t}\n", ""),  # start < end <= len(v) is tested before the slice: the early return is redundant for safety
     B("c16-r5-benign-holder-guard-form", "C16", CHOLD, "\tif len(value.Content) < 2 {", "\tif n := len(value.Content); n <= 1 {"),
 ]
